@@ -1644,15 +1644,119 @@ def size_field_results(F, own):
     return res
 
 
+def _ref_target(du, l, depth=0):
+    """the place a reference-typed local points at (through reborrows)"""
+    d = du.sole_def(l) if l is not None else None
+    if d is None or d[2] != "assign" or depth > 4:
+        return None
+    rv = d[3]["rv"]
+    if rv["k"] in ("ref", "rawptr"):
+        pl = rv["place"]
+        if len(pl["p"]) == 1 and pl["p"][0]["k"] == "deref":
+            inner = _ref_target(du, pl["l"], depth + 1)
+            return inner if inner is not None else pl
+        return pl
+    if rv["k"] in ("use", "cast") and op_local(rv["op"]) is not None:
+        return _ref_target(du, op_local(rv["op"]), depth + 1)
+    return None
+
+
+def _is_object_field(f, pl):
+    """a field of an object the function was given (self or another parameter), not of a local"""
+    return pl is not None and any(e["k"] == "field" for e in pl["p"]) and 1 <= pl["l"] <= f.mir["arg_count"]
+
+
+def taken_out_of_object(f, du, op):
+    """is the pointer operand storage that was taken out of an object the function works on: read from one of its fields,
+    returned by mem::replace on such a field, or held by a local that was mem::swap-ped with such a field"""
+    for _ in range(12):
+        p = op_place(op)
+        if p is None:
+            return False
+        if _is_object_field(f, p):
+            return True
+        x = p["l"]
+        for _bi, t in mu.calls(f):
+            nm = callee_names(t["func"])
+            if any(n == "std::mem::swap" for n in nm) and len(t["args"]) == 2:
+                a, b = (_ref_target(du, op_local(t["args"][0])), _ref_target(du, op_local(t["args"][1])))
+                for u, v in ((a, b), (b, a)):
+                    if u is not None and u["l"] == x and not u["p"] and _is_object_field(f, v):
+                        return True
+            if any(n in ("std::mem::replace", "std::mem::take") for n in nm) and t["dest"]["l"] == x and not t["dest"]["p"] and t["args"]:
+                if _is_object_field(f, _ref_target(du, op_local(t["args"][0]))):
+                    return True
+        d = du.sole_def(x)
+        if d is None:
+            return False
+        if d[2] == "call":
+            if not d[3]["args"] or not any(n.rsplit("::", 1)[-1] in THROUGH for n in callee_names(d[3]["func"])):
+                return False
+            op = d[3]["args"][0]
+            continue
+        rv = d[3]["rv"]
+        if rv["k"] in ("use", "cast"):
+            op = rv["op"]
+        else:
+            return False
+    return False
+
+
+def reallocating_functions(F, own):
+    """Functions that replace storage: they obtain new memory from the allocator (directly or from an allocating helper) and
+    hand back memory that was taken out of the object they work on (read from / swapped with / replaced in one of its
+    fields) - as opposed to rolling back their own fresh allocation. Found by what they do, in any type, however many
+    there are. -> [(fn, [(block, dealloc term)])]"""
+    out = []
+    for f in F.fns:
+        if not f.mir or f.is_closure or f.short in FORWARDERS:
+            continue
+        deallocs = [(bi, t) for bi, t in mu.calls(f) if is_dealloc(t) and bi in f.cfg.reach]
+        if not deallocs or not own.info(f).sources:
+            continue
+        du = own.du(f)
+        old = [(bi, t) for bi, t in deallocs if taken_out_of_object(f, du, t["args"][1])]
+        if old:
+            out.append((f, old))
+    return out
+
+
 def rule_r(F):
     res = []
-    for path in ("collections::hash_map::CaoHashMap::adjust_capacity", "collections::handle_table::HandleTable::adjust_capacity"):
-        f = F.fn(path)
-        du = DefUse(f)
-        tname = path.split("::")[-2]
-        deallocs = [(bi, t) for bi, t in mu.calls(f) if any(n.endswith("Allocator::dealloc") or n.endswith("::dealloc") for n in callee_names(t["func"]))]
-        if not deallocs:
-            raise AnchorMissing("dealloc in %s" % path)
+    own = Own.of(F)
+    found = reallocating_functions(F, own)
+    if not found:
+        raise AnchorMissing("functions that allocate new storage and release the storage they replace")
+    for f, deallocs in found:
+        du = own.du(f)
+        cfg = f.cfg
+        tname = f.short.split("::")[-2] if "::" in f.short else f.short
+        adt = _adt_of(f.raw.get("impl_self"))
+        size_fields = set(o["size_field"] for o in own.owners().get(adt, []) if o["size_field"]) or {"capacity"}
+
+        # where the size field is overwritten (assignment, or mem::replace / swap / take through a reference to it)
+        stores = []
+        for bi, b in enumerate(f.blocks):
+            for si, st in enumerate(b["stmts"]):
+                if st["k"] == "assign" and st["place"]["p"] and st["place"]["p"][-1]["k"] == "field" and st["place"]["p"][-1]["name"] in size_fields:
+                    stores.append((bi, si))
+            t = b["term"]
+            if t["k"] == "call" and any(n in ("std::mem::replace", "std::mem::swap", "std::mem::take") for n in callee_names(t["func"])):
+                for a in t["args"][:2]:
+                    a0 = op_local(a)
+                    if a0 is not None and any(mu.ref_of_field_chain(f, du, a0, [sf]) for sf in size_fields):
+                        stores.append((bi, len(b["stmts"])))
+
+        def after_store(bi, si):
+            for (bj, sj) in stores:
+                if (bj == bi and sj < si) or any(bi == x or bi in cfg.reachable_from(x) for x in cfg.succ[bj]):
+                    return True
+            return False
+
+        def field_tag(q, bi, si):
+            if any(e["k"] == "field" and e["name"] in size_fields for e in q["p"]):
+                return "stale-field" if after_store(bi, si) else "field"
+            return None
 
         def leaves(l, depth=0, seen=None):
             seen = set() if seen is None else seen
@@ -1666,38 +1770,42 @@ def rule_r(F):
                     out.add("param")
                 return out
             for d in ds:
+                si = d[1] if d[1] != "term" else len(f.blocks[d[0]]["stmts"])
                 if d[2] == "call":
                     nm = callee_names(d[3]["func"])
                     if any(n.endswith("mem::replace") for n in nm):
                         a0 = op_local(d[3]["args"][0])
-                        if a0 is not None and mu.ref_of_field_chain(f, du, a0, ["capacity"]):
+                        if a0 is not None and any(mu.ref_of_field_chain(f, du, a0, [sf]) for sf in size_fields):
                             out.add("old")
                             continue
                     for a in d[3]["args"]:
                         q = op_place(a)
                         if q is not None:
-                            if any(e["k"] == "field" and e["name"] == "capacity" for e in q["p"]):
-                                out.add("field")
+                            tag = field_tag(q, d[0], si)
+                            if tag:
+                                out.add(tag)
                             out |= leaves(q["l"], depth + 1, seen)
                 else:
                     from cao.facts import rvalue_places
                     for q in rvalue_places(d[3]["rv"]):
-                        if any(e["k"] == "field" and e["name"] == "capacity" for e in q["p"]):
-                            out.add("field")
+                        tag = field_tag(q, d[0], si)
+                        if tag:
+                            out.add(tag)
                         else:
                             out |= leaves(q["l"], depth + 1, seen)
             return out
         for n, (bi, t) in enumerate(deallocs):
-            key = "C05/R/%s::adjust_capacity/old-storage-freed-with-old-capacity%s" % (tname, "" if n == 0 else "#%d" % n)
+            key = "C05/R/%s::%s/old-storage-freed-with-old-capacity%s" % (tname, f.name, "" if n == 0 else "#%d" % n)
             lay = op_local(t["args"][-1])
             lv = leaves(lay) if lay is not None else set()
             if "old" in lv or "field" in lv:
                 res.append(ok("C05.R", key, f.loc(t.get("ln")), "the layout of the freed block is computed from the capacity read out of self.capacity (%s)" % sorted(lv)))
-            elif "param" in lv:
+            elif "param" in lv or "stale-field" in lv:
                 res.append(bad("C05.R", key, f.loc(t.get("ln")),
-                               "%s::adjust_capacity frees the old storage with a layout computed from the NEW capacity: the accounting "
+                               "%s::%s frees the old storage with a layout computed from the NEW capacity%s: the accounting "
                                "allocator refunds the size of the new block for the old one, so a growing table is never charged for its "
-                               "growth, the limit is not enforced for live tables and the counter underflows when the table is dropped" % tname))
+                               "growth, the limit is not enforced for live tables and the counter underflows when the table is dropped"
+                               % (tname, f.name, " (the size field is read after it was overwritten)" if "param" not in lv else "")))
             else:
                 res.append(undecided("C05.R", key, f.loc(t.get("ln")), "origin of the freed block's layout not understood"))
     return res
